@@ -50,6 +50,22 @@ WORLDS = {
     "W64-575q": (["FP_PRIME=575", "FP_QNRES=on", "BN_PRECI=3072"], ""),
     "W64-638": (["FP_PRIME=638"], ""),
     "W64-544": (["FP_PRIME=544"], ""),
+    # PROBE-BEGIN
+    "W64-158": (["FP_PRIME=158"], ""),
+    "W64-254": (["FP_PRIME=254"], ""),
+    "W64-317": (["FP_PRIME=317"], ""),
+    "W64-354": (["FP_PRIME=354"], ""),
+    "W64-377": (["FP_PRIME=377"], ""),
+    "W64-382": (["FP_PRIME=382"], ""),
+    "W64-383": (["FP_PRIME=383"], ""),
+    "W64-455": (["FP_PRIME=455"], ""),
+    "W64-508": (["FP_PRIME=508"], ""),
+    "W64-509": (["FP_PRIME=509"], ""),
+    "W64-510": (["FP_PRIME=510"], ""),
+    "W64-765": (["FP_PRIME=765", "BN_PRECI=3072"], ""),
+    "W64-766": (["FP_PRIME=766", "BN_PRECI=3072"], ""),
+    "W64-768": (["FP_PRIME=768", "BN_PRECI=3072"], ""),
+    # PROBE-END
     "W64-638q": (["FP_PRIME=638", "FP_QNRES=on", "BN_PRECI=2048"], ""),
     "W64-dyn-san": (["ALLOC=DYNAMIC"], SAN),
     "W64-mt": (["MULTI=PTHREAD"], ""),
